@@ -248,8 +248,9 @@ def finish(ctx, level, explanation, extra_cov=None, rule=None):
     for case, path in ctx.violations:
         print('VIOLATION property=%s replay=%s' % (ctx.pid, path))
     if ctx.violations: return 1
-    print('%s %s: holds within bounds; %d harnesses, %d paths, %d queries, solver %.1fs, wall %.1fs' % (
-        ctx.pid, ctx.tier, len(ctx.harnesses), paths, tot.get('queries', 0), tot.get('solver_ms', 0) / 1000.0, wall))
+    ks = getattr(ctx, 'kani', [])
+    print('%s %s: holds within bounds; %d mirsym harnesses, %d paths, %d queries, solver %.1fs; %d kani harnesses (%.1fs solver); wall %.1fs' % (
+        ctx.pid, ctx.tier, len(ctx.harnesses), paths, tot.get('queries', 0), tot.get('solver_ms', 0) / 1000.0, len(ks), sum((r.get('solver_s') or 0) for r in ks), wall))
     return 0
 
 
